@@ -192,7 +192,7 @@ pub fn run(g: &mut Global) {
         },
         &check,
     );
-    g.random("random", g.tier.pick(12000, 60000), &|| strategy(1, 400), &check);
+    g.random("random", g.tier.pick(40000, 200000), &|| strategy(1, 400), &check);
     let (lo, hi, cnt) = g.tier.pick((2000usize, 5000usize, 160u32), (20000usize, 50000usize, 320u32));
     g.random("long", cnt, &move || strategy(lo, hi), &check);
 }
